@@ -200,6 +200,7 @@ def hist_to_vector(cfg, hist, vid, fam, cont, n):
     cmds = []
     cur_fires = []
     prev = None
+    skip_ins = 0
     for e in hist:
         k = e["e"]
         if k == "poll":
@@ -224,6 +225,11 @@ def hist_to_vector(cfg, hist, vid, fam, cont, n):
                 cmds.append(["drop"])
         elif k == "quiesce":
             cmds.append(["settle"])
+        elif k == "fromiter":
+            cmds.append(["fromiter", e["n"]])
+            skip_ins = e["n"]
+        elif k == "insert" and skip_ins > 0:
+            skip_ins -= 1          # a member handed to FromIterator: part of the `fromiter` command
         elif k == "insert":
             if e.get("key", 0) < 0:
                 # members added through `extend` (no key is reported): consecutive ones form one call
